@@ -28,7 +28,7 @@ def order(us):
 
 
 QUICK_TABLES = [(1, 1), (1, 2), (1, 3), (2, 1), (2, 2), (3, 1), (3, 2), (2, 3), (3, 3), (4, 1), (1, 4), (4, 2), (2, 4)]
-THOROUGH_TABLES = [(n, m) for n in range(1, 5) for m in range(1, 5)]
+THOROUGH_TABLES = [(n, m) for n in range(1, 5) for m in range(1, 5) if (n, m) != (4, 4)]   # 4x4 only where noted
 
 
 # -- wide tables -------------------------------------------------------------------------------------------------
